@@ -353,7 +353,7 @@ def b_odict(tier, seed):
     from mappyfile.tokens import OBJECT_LIST_KEYS
     fails, n = [], 0
     KEYS = ["a", "A", "b", "layers"]
-    VALS = [1, [1], {"x": 1}]
+    VALS = [1, [1], {"x": 1}, None]
 
     class Ref:
         """ordinary ordered dict keyed by the lower-cased keys"""
